@@ -58,6 +58,11 @@ def constructs():
     pair('math_paren', '\\\\(', 'a', '\\\\)')
     pair('math_dollar', '$', 'a', '$')
     pair('link_nest', '[', 'a', '](b)')
+    # deep trees INSIDE verbatim regions go through the writers' raw / math / tt exporters, which recurse on their own
+    c['code_brackets'] = lambda n, form: '`' + '[' * n + 'a' + (']' * n if form == 'closed' else '') + '`'
+    c['math_brackets'] = lambda n, form: '\\\\(' + '[' * n + 'a' + (']' * n if form == 'closed' else '') + '\\\\)'
+    c['math_nested'] = lambda n, form: '\\\\(' * n + 'a' + ('\\\\)' * n if form == 'closed' else '')
+    c['code_block_brackets'] = lambda n, form: '    ' + '[' * n + 'a' + (']' * n if form == 'closed' else '') + '\n'
     pair('div', '<div>', 'a', '</div>')
     pair('mixed', '[(<{{*', 'a', '*}}>)]')
     c['sup'] = lambda n, form: '^a' * n if form != 'unopened' else 'a^' * n
@@ -76,6 +81,7 @@ def constructs():
     return c
 
 
+VERBATIM_NESTING = {'code_brackets', 'math_brackets', 'math_nested', 'code_block_brackets'}
 SINGLE_FORM = {'flat_critic', 'flat_abbrev', 'sup', 'sub', 'backtick', 'blockquote', 'bq_lines', 'list_indent', 'list_marker', 'enum_marker', 'deflist', 'table_pipes'}
 
 PATTERNS = {'unopened_emph': 'a_', 'unclosed_emph': '_a', 'unopened_link': 'a]', 'unclosed_link': '[a', 'mismatched': '*a_', 'link_emph': '[ a_',
@@ -237,7 +243,7 @@ def run(tier):
                 for compat in (0, 1):
                     if quick and fmt not in ('html', 'latex', 'fodt', 'opml') and (compat or form != 'closed'):
                         continue
-                    rungs = rungs_full if fmt in ('html', 'latex') else rungs_small
+                    rungs = rungs_full if (fmt in ('html', 'latex') or (name in VERBATIM_NESTING and fmt == 'fodt')) else rungs_small
                     tasks.append((name, form, fmt, compat, rungs, budget, work))
             if name.startswith('critic'):
                 # the accept / reject pre-pass walks the CriticMarkup tree on its own
